@@ -129,11 +129,12 @@ def run(ctx):
                 second = pos_of(dotted(arg), s2) == 1
         uo = reaching_defs(ctx, f, dotted(uri_kw), req)
         u_ok = second and any(v is not None and src(v) == f"{res}.path" for _s, v in uo)
-        po = origin(f.node, par_kw)
-        if isinstance(po, ast.Call) and po.args and isinstance(po.args[0], ast.Name):
-            po = ast.Call(func=po.func, args=[origin(f.node, po.args[0])] + po.args[1:], keywords=po.keywords)
-        p_ok = second and isinstance(po, ast.Call) and dotted(po.func) == "dict" and isinstance(po.args[0], ast.Call) and dotted(po.args[0].func) in ("parse_qsl", "urllib.parse.parse_qsl") and src(po.args[0].args[0]) == f"{res}.query"
-    ctx.ob("R3", "AGREE", f, "HttpRequest(method, uri, params)", bool(m_ok and u_ok and p_ok), f"method = first token={m_ok}; uri = urlparse(<second token>).path={u_ok}; params = dict(parse_qsl(<same>.query))={p_ok}", req)
+        po = _inl(f.node, par_kw)
+        qcalls = [c for c in ast.walk(po) if isinstance(c, ast.Call) and dotted(c.func) in ("parse_qsl", "urllib.parse.parse_qsl")]
+        # the parameter map is built from parse_qsl over the query component of that same parse, and from nothing else
+        p_ok = second and len(qcalls) == 1 and qcalls[0].args and any(isinstance(n, ast.Attribute) and n.attr == "query" and (dotted(n.value) == res or src(n.value) == src(ups[0])) for n in ast.walk(qcalls[0].args[0])) \
+            and isinstance(po, (ast.Call, ast.DictComp)) and (dotted(po.func) == "dict" if isinstance(po, ast.Call) else True)
+    ctx.ob("R3", "AGREE", f, "HttpRequest(method, uri, params)", bool(m_ok and u_ok and p_ok), f"method = first token={m_ok}; uri = urlparse(<second token>).path={u_ok}; params = mapping built from parse_qsl(<same>.query)={p_ok}", req)
     for kind, c in (("HttpResponse", resp), ("HttpRequest", req)):
         h = kwarg(c, "headers")
         ctx.ob("R3", "AGREE", f, f"{kind}(headers=headers)", dotted(h) == HD and HD is not None, f"headers bound to the parsed header map: {src(h)}", c)
@@ -175,3 +176,16 @@ def run(ctx):
     ctx.ob("R5", "AGREE", f, "headers = {}", len(hd) == 1 and isinstance(hd[0], ast.Dict) and not hd[0].keys, "header map starts empty (insertion order preserved)")
     # ---- R6
     effects.check_escape(ctx, "R6", ["c2.parse_raw_http"], {"ValueError"})
+    # ---- R7 [API]: percent-decoding must be able to produce every byte value. urllib's parse_qsl on *bytes* decodes the
+    # query as ASCII, unquotes as UTF-8 and re-encodes the result as ASCII: any parameter that decodes to a non-ASCII byte
+    # raises UnicodeEncodeError. A necessary condition for "any key/value bytes" is therefore that the query is parsed as
+    # text with a single-byte codec (encoding="latin-1", then encoded back) or with unquote_to_bytes.
+    qs = [c for c in fn_calls(f.node) if dotted(c.func) in ("parse_qsl", "urllib.parse.parse_qsl", "parse_qs", "urllib.parse.parse_qs")]
+    for c in qs:
+        enc = kwarg(c, "encoding")
+        ok = enc is not None and str(_c(enc)).lower().replace("_", "-") in ("latin-1", "latin1", "iso-8859-1")
+        ctx.ob("R7", "API", f, "parse_qsl(query)", ok, "query parsed as text with a single-byte codec: every percent-encoded byte value survives" if ok else
+               "parse_qsl is applied without a single-byte `encoding=`: with a bytes query the result is re-encoded as ASCII, so a parameter such as ?q=caf%C3%A9 raises UnicodeEncodeError instead of yielding its bytes", c)
+    ub = [c for c in fn_calls(f.node) if dotted(c.func) in ("unquote_to_bytes", "urllib.parse.unquote_to_bytes")]
+    if not qs and not ub:
+        ctx.ob("R7", "API", f, "query decoding", False, "no percent-decoding of the query found")
